@@ -651,6 +651,9 @@ INFO = {'C16': {
         'no I/O errors are injected: no property speaks about them',
         'the conflict clauses are judged on what the recording factory saw '
         'in the map at the instant each handle was built']}}
+for _v in INFO.values():
+    _v['rule'] += (
+        '; swarm dimensions (see probes): pre-existing handles and maps, falsy handles, repeated population, trees that change between populations (file becomes directory), dangling links and pipes, glob characters in directory and root names, the root itself as a rule, decomposed/precomposed and upper-case names, other spellings of rule paths')
 PROBES = {'C16': ['file_became_directory', 'entry_neither_file_nor_directory', 'conflict.trim', 'conflict.preexisting', 'conflict.repeat',
                   'conflict.repeat_rule', 'three_way_conflict',
                   'ext_filter_with_nested_dir', 'empty_dir', 'rule_is_file',
